@@ -302,4 +302,6 @@ def check(fx, rep, tier):
     import imports
     imports.cancel_safety(fx, rep, 'R08.7', 'the server loop drops pending receive futures whenever another connection, an accept or a stream item wins the select')
     imports.rules_of(fx, rep, 'C18', {'R18.2'}, 'R08.8', 'a future that completed in the select has consumed its call from the connection buffer: unless it is handed out at once the call is never answered')
+    import imports as _imp
+    _imp.layer(fx, rep, 'C08')
     return META
